@@ -1624,30 +1624,42 @@ func ruleLookup(c *Ctx) {
 	} else {
 		c.site(1)
 		key := "cmd.newWriteCmdArgsFromInputInstances|GetChord"
-		var get *ssa.Call
-		for _, ci := range callsIn(fn) {
-			if n := calleeName(ci.Common()); n == "chord.Mapper.GetChord" {
-				get, _ = ci.(*ssa.Call)
-			}
+		// the lookup and the construction may sit in an extracted helper: look at the whole region
+		region := c.regionCalls(fn, nil)
+		find := func(name string) []rcall {
+			return findRegion(region, func(ci ssa.CallInstruction) bool { return calleeName(ci.Common()) == name })
 		}
-		news := callsTo(fn, "op.NewChord")
+		gets, news := find("chord.Mapper.GetChord"), find("op.NewChord")
+		// missBefore: a miss of the located call is an error that reaches the caller, and the construction only happens on a hit
+		missBefore := func(rc rcall, nw rcall) bool {
+			call, ok := rc.call.(*ssa.Call)
+			if !ok {
+				return false
+			}
+			for _, s := range rc.chain {
+				if sc, ok := s.(*ssa.Call); !ok || !c.errorReturned(sc) {
+					return false
+				}
+			}
+			if sameChain(rc.chain, nw.chain) {
+				return c.missReturnsError(call, 1, nw.call)
+			}
+			return c.missReturnsError(call, 1, nil) && regionDominates(rc.li(), nw.li())
+		}
 		switch {
-		case get == nil || len(news) == 0:
+		case len(gets) == 0 || len(news) == 0:
 			c.undec(key, c.pos(fn.Pos()), fname(fn), "chord lookup or op.NewChord not found")
 		default:
-			good := c.missReturnsError(get, 1, news[0])
-			c.check(good, key, c.pos(get.Pos()), fname(fn), "unknown chord symbol is an error before the chord is built", "a chord symbol that the dictionary does not define no longer fails before op.NewChord: the unknown symbol is played as something else")
+			good := missBefore(gets[len(gets)-1], news[0])
+			c.check(good, key, c.pos(gets[0].call.Pos()), fname(fn), "unknown chord symbol is an error before the chord is built", "a chord symbol that the dictionary does not define no longer fails before op.NewChord: the unknown symbol is played as something else")
 		}
-	}
-	// a chord decoded without a `degree` key holds the zero Degree, whose printer panics: it must be refused before the chord is built
-	if fn != nil {
+		// a chord decoded without a `degree` key holds the zero Degree, whose printer panics: it must be refused before the chord is built
 		c.site(1)
-		key := "cmd.newWriteCmdArgsFromInputInstances|degree-present"
-		news := callsTo(fn, "op.NewChord")
+		key = "cmd.newWriteCmdArgsFromInputInstances|degree-present"
 		good := false
-		for _, ci := range callsTo(fn, "note.Degree.Semitone") {
-			n, _, ok := loadedField(ci.Common().Args[0])
-			if ok && n == "Degree" && len(news) > 0 && c.missReturnsError(ci.(*ssa.Call), 1, news[0]) {
+		for _, rc := range find("note.Degree.Semitone") {
+			n, _, ok := loadedField(rc.call.Common().Args[0])
+			if ok && n == "Degree" && len(news) > 0 && missBefore(rc, news[0]) {
 				good = true
 			}
 		}
